@@ -72,7 +72,8 @@ def encircled_energy(data,
 
     rad = numpy.append(0, rad)
     ee = numpy.append(0, ee)
-    ee /= numpy.sum(data)
+    # (the total in double precision like the partial sums above, or the curve of a float32 image can end above 1)
+    ee /= numpy.sum(data, dtype=float)
     xi = numpy.linspace(0, 2 * dim, int(4 * dim))
     yi = numpy.interp(xi, rad, ee)
 
